@@ -748,7 +748,8 @@ func (vc *VC) ancTerm(st *State, x Val, q string) string {
 	if !ok {
 		cfail("target-exists: chain field %s.%s", key, fld)
 	}
-	P := vc.heapGet(st, comp, "(Array Int Int)")
+	P := vc.patSafe(vc.heapGet(st, comp, "(Array Int Int)"), "(Array Int Int)")
+	x.T = vc.patSafe(x.T, "Int")
 	in := vc.declareFun("inchain_"+sanitize(key), []string{"(Array Int Int)", "Int", "Int"}, "Bool")
 	dp := vc.declareFun("depth_"+sanitize(key), []string{"(Array Int Int)", "Int"}, "Int")
 	vc.assumedUse["acyclic parent chain "+key+"."+fld] = true
@@ -765,4 +766,19 @@ func (vc *VC) ancTerm(st *State, x Val, q string) string {
 		vc.emit(fmt.Sprintf("(assert (=> (and (not (= %s 0)) (not (= %s 0))) (< (%s %s %s) (%s %s %s))))", x.T, par, dp, P, par, dp, P, x.T))
 	}
 	return sx(in, P, x.T, q)
+}
+
+// patSafe returns a term usable inside a quantifier pattern: names introduced by define-fun are macros and may
+// expand to terms with boolean structure, so they are aliased by a constant.
+func (vc *VC) patSafe(t, sort string) string {
+	if !vc.defined[t] && !strings.ContainsAny(t, " (") {
+		return t
+	}
+	if a, ok := vc.patAlias[t]; ok {
+		return a
+	}
+	a := vc.declare("alias", sort)
+	vc.assert(sx("=", a, t))
+	vc.patAlias[t] = a
+	return a
 }
